@@ -37,6 +37,10 @@ func NewTableConfig(spoolDir, badMetricsMaxAge string, vLegacy validate.LevelLeg
 	if err != nil {
 		return TableConfig{}, fmt.Errorf("could not parse badMetrics max age: %s", err.Error())
 	}
+	if maxAge/10 <= 0 {
+		// records are cleaned up by a ticker with a tenth of this period
+		return TableConfig{}, fmt.Errorf("badMetrics max age must be positive, got %q", badMetricsMaxAge)
+	}
 
 	return TableConfig{
 		spoolDir,
